@@ -69,6 +69,8 @@ type Spec struct {
 	SameActions bool
 	// PrecTag: an optional <tag> written on precedence line i
 	PrecTag map[int]string
+	// GroupTokens: several tokens per %token line
+	GroupTokens bool
 }
 
 // precLineNumber: the explicit number of a named token that is declared by a precedence
@@ -80,6 +82,37 @@ func (s *Spec) precLineNumber(ref string) int {
 		}
 	}
 	return 0
+}
+
+// declLine is one %token line: an optional tag and the words after it (names, numbers, literals).
+type declLine struct {
+	Tag   string
+	Items []string
+}
+
+// tokenDeclLines lists the %token lines. Normally one token per line; with GroupTokens,
+// consecutive tokens with the same tag share a line - a character literal only after a numbered
+// name or another literal (yaccgo reads a literal right after a bare name as that name's alias).
+func (s *Spec) tokenDeclLines() []declLine {
+	var out []declLine
+	lastBare := false
+	for _, t := range s.Toks {
+		if t.Decl == "prec" || t.Decl == "rule" || t.Decl == "extra" {
+			continue
+		}
+		items := []string{t.Ref()}
+		bare := t.Name != "" && t.Num == 0
+		if t.Name != "" && t.Num != 0 {
+			items = append(items, fmt.Sprint(t.Num))
+		}
+		if s.GroupTokens && len(out) > 0 && out[len(out)-1].Tag == t.Tag && !(t.Name == "" && lastBare) {
+			out[len(out)-1].Items = append(out[len(out)-1].Items, items...)
+		} else {
+			out = append(out, declLine{Tag: t.Tag, Items: items})
+		}
+		lastBare = bare
+	}
+	return out
 }
 
 func (s *Spec) HasTag(t string) bool {
@@ -252,19 +285,12 @@ func (s *Spec) Render(o RenderOpts) string {
 		sb.WriteString(l + "\n")
 	}
 	// token declarations
-	for _, t := range s.Toks {
-		if t.Decl == "prec" || t.Decl == "rule" || t.Decl == "extra" {
-			continue
-		}
+	for _, dl := range s.tokenDeclLines() {
 		sb.WriteString("%token ")
-		if t.Tag != "" {
-			sb.WriteString("<" + t.Tag + "> ")
+		if dl.Tag != "" {
+			sb.WriteString("<" + dl.Tag + "> ")
 		}
-		sb.WriteString(t.Ref())
-		if t.Name != "" && t.Num != 0 {
-			fmt.Fprintf(&sb, " %d", t.Num)
-		}
-		sb.WriteString("\n")
+		sb.WriteString(strings.Join(dl.Items, " ") + "\n")
 	}
 	for pi, p := range s.Prec {
 		sb.WriteString("%" + p.Assoc)
@@ -935,6 +961,11 @@ func Fixed() []*Spec {
 		PrecTag:   map[int]string{0: "alt"},
 		Rules:     rules("E: E PLUS E | NUM | ID"),
 		NTTag:     allVal("E")})
+	// several tokens on one %token line (names with and without numbers, literals)
+	add(&Spec{Name: "grouped_tokens", Tags: []string{"lalr1"}, GroupTokens: true,
+		Toks:  []Tok{named("NUM", 470), named("ID", 0), named("STR", 472), litV('+'), litV('-'), {Name: "KW"}, {Name: "KX", Num: 475}, lit(';')},
+		Rules: rules("S: S E ';' | E ';'", "E: E '+' T | E '-' T | T", "T: NUM | ID | STR | KW | KX"),
+		NTTag: allVal("S", "E", "T")})
 	// names that differ only in case; automatic token numbers
 	add(&Spec{Name: "case_names", Tags: []string{"lalr1"},
 		Toks:  []Tok{named("NUM", 0), named("List", 0), lit(',')},
@@ -1227,21 +1258,19 @@ func (s *Spec) Pieces() (pieces, seps []string) {
 			}
 		}
 	}
-	for _, t := range s.Toks {
-		if t.Decl == "prec" || t.Decl == "rule" || t.Decl == "extra" {
-			continue
-		}
+	for _, dl := range s.tokenDeclLines() {
 		add("%token", " ")
-		if t.Tag != "" {
+		if dl.Tag != "" {
 			add("<", "")
-			add(t.Tag, "")
+			add(dl.Tag, "")
 			add(">", " ")
 		}
-		if t.Name != "" && t.Num != 0 {
-			add(t.Ref(), " ")
-			add(fmt.Sprint(t.Num), "\n")
-		} else {
-			add(t.Ref(), "\n")
+		for k, w := range dl.Items {
+			if k+1 < len(dl.Items) {
+				add(w, " ")
+			} else {
+				add(w, "\n")
+			}
 		}
 	}
 	for pi, p := range s.Prec {
@@ -1427,6 +1456,7 @@ func RandomRich(seed int64, n int) []*Spec {
 			moved := s.Rules[k]
 			s.Rules = append(append(s.Rules[:k:k], s.Rules[k+1:]...), moved)
 		}
+		s.GroupTokens = tries%3 == 1
 		s.Start = "S"
 		s.Finish()
 		if !s.reduced() {
